@@ -56,8 +56,8 @@ def parse_cmd(obj, path, content, dl, cm, py=False, jn=False):
 
 # ---------------------------------------------------------------- histories (5.6)
 import floatoracle as _fo
-SECTIONS = [None, b"", b"A", b"[A]", b"B", b"[B]", b"_none_", b"C c", b"[D", b"[A]b]", b"Ab", b"C", b"_none_2", b"Az", b"BY", b"[]", b"[", b"]", b"[ ]"]   # incl. names that are prefixes of other names
-KEYS = [b"k1", b"k2", b"k3", b"k4", b"key five", b"az", b"bY", b"_none_"]      # the last two have equal djb2 hashes
+SECTIONS = [None, b"", b"A", b"[A]", b"B", b"[B]", b"_none_", b"C c", b"[D", b"[A]b]", b"Ab", b"C", b"_none_2", b"Az", b"BY", b"[]", b"[", b"]", b"[ ]", b"_npMe_"]   # incl. names that are prefixes of other names
+KEYS = [b"k1", b"k2", b"k3", b"k4", b"key five", b"az", b"bY", b"_none_", b"k1 ", b"k2\t"]      # the last two have equal djb2 hashes
 BADKEYS = [None, b""]
 STRVALS = [b"v", b"", b"two words", b"Yes Please", b"-17", b"0x1F", b"077", b"1e3", b"true", b"NO", b"_none_",
            b"4294967296", b"2147483648", b"-1", b"99999999999999999999999", b" 12", b"12 ", b"p-", b"g@lse", b"nan", b"inf", b"1e-320", b"1e999", b"0"]        # incl. texts whose float conversion leaves errno set
